@@ -16,7 +16,7 @@ Quantifier: {prop['quantifier']['text']}
 
 TASK: make ONE realistic change to the library source (files under {wt}/xgi/) that BREAKS this property, such that
  1. the package still imports and every file compiles;
- 2. the existing test-suite still passes: `cd {wt} && /venv/bin/python -m pytest -q -p no:cacheprovider -x --timeout=900` (this runs tests/ and the doctests; about 30 s; two drawing tests, `test_issue_515` and the `xgi.drawing.draw.draw` doctest, are flaky on the unchanged tree - ignore those two only);
+ 2. the existing test-suite still passes: run `/venv/bin/python /tmp/seed/baseline.py {wt}` (about 30 s): it runs tests/ and the doctests in your worktree and compares with the list of tests that pass on the unchanged tree; it must print `missing=0` (two drawing tests, `test_issue_515` and the `xgi.drawing.draw.draw` doctest, are flaky on the unchanged tree - if only those are reported, rerun);
  3. the breakage needs something SPECIFIC to manifest - a particular multi-step sequence of calls, an unusual but admissible input, a particular flag/branch/format, or two cooperating edits that each look fine alone - NOT something ordinary use or the existing tests would expose at once;
  4. it looks like a plausible mistake a maintainer could make (a refactor, an optimisation, a new code path, a forgotten branch, an off-by-one, a dropped copy, a wrong guard), not sabotage with dead code or comments that give it away. Do not add comments that point at the bug.
 {('FOCUS for diversity: ' + focus) if focus else ''}
@@ -25,5 +25,5 @@ DELIVERABLES (write them under {wt}/_seed/):
  - `patch.diff`: output of `git -C {wt} diff -- xgi` (only library source; nothing else changed);
  - `demo.py`: a small stand-alone program, run as `cd {wt} && /venv/bin/python _seed/demo.py`, that exits with status 1 (printing what went wrong) when the change is applied and exits 0 on the unchanged library. It MUST begin with `import sys, os; sys.path.insert(0, os.path.dirname(os.path.dirname(os.path.abspath(__file__))))` so that `import xgi` picks up the library of the directory that contains `_seed/` (the installed xgi is a different checkout!). It must exercise the public API only and state in a comment what it needs in order to manifest;
  - `meta.json`: {{"property": "{pid}", "summary": "...", "files": [...], "needs": "what is required for the breakage to manifest", "ran": ["commands you ran and their outcome"]}}.
-Verify all of it yourself: run the test-suite with the change (must pass), run demo.py with the change (must exit 1), then `git stash`, run demo.py again (must exit 0), `git stash pop`. Leave the change applied in the worktree when you finish.
+Verify all of it yourself: run the test-suite check with the change (missing=0), run demo.py with the change (must exit 1), then `git apply -R _seed/patch.diff`, run demo.py again (must exit 0), `git apply _seed/patch.diff`. NEVER use `git stash` (it is shared with sibling worktrees used by other people). Leave the change applied in the worktree when you finish and make sure `git diff -- xgi` equals _seed/patch.diff.
 In your final answer, report briefly: the change, why tests do not catch it, and the verification results.""")
